@@ -202,7 +202,7 @@ func main() {
 	// ---- build ----
 	bin := filepath.Join(scratch, "prop.test")
 	buildArgs := append([]string{"test", "-c", "-vet=off", "-o", bin}, modArgs...)
-	if cfg.Race {
+	if cfg.Race || (cfg.RaceThorough && tier == "thorough") {
 		buildArgs = append(buildArgs, "-race")
 	}
 	if cfg.Tags != "" {
